@@ -390,3 +390,136 @@ pub fn record_corpus(a: &HashMap<String, String>) -> i32 {
     }
     0
 }
+
+// ------------------------------------------------------------------ C20
+
+fn w8_text(w8: i64) -> String {
+    let neg = w8 < 0;
+    let a = w8.abs();
+    format!("{}{}.{:03}", if neg { "-" } else { "" }, a / 8, (a % 8) * 125)
+}
+
+fn expand_tpl(t: &Value, feats: &[String]) -> Option<String> {
+    // the harness' own rendering of an expansion - used ONLY to produce model.def lines that hit
+    let mut s = String::new();
+    for p in t.as_array().unwrap() {
+        match p["k"].as_str().unwrap() {
+            "lit" => s.push_str(p["v"].as_str().unwrap()),
+            "type" => s.push('0'),
+            k => {
+                let v = feats.get(p["i"].as_u64().unwrap() as usize).map_or("*", |x| x.as_str());
+                if k == "opt" && v == "*" {
+                    return None;
+                }
+                s.push_str(v);
+            }
+        }
+    }
+    Some(s)
+}
+
+pub fn record_mecab(a: &HashMap<String, String>) -> i32 {
+    let seed: u64 = a.get("seed").and_then(|s| s.parse().ok()).unwrap_or(1);
+    let n: usize = a.get("n").and_then(|s| s.parse().ok()).unwrap_or(100);
+    let mut rng = Rng::new(seed ^ 0xC020);
+    let vals = ["a", "b", "*", "名詞", "c"];
+    let mut f = open(a);
+    for _ in 0..n {
+        let t = gen_templates(&mut rng, false);
+        let table = |rng: &mut Rng, bad: u8| -> Vec<(usize, Vec<String>)> {
+            let nids = 1 + rng.below(4);
+            let mut tab: Vec<(usize, Vec<String>)> = vec![(0, vec!["BOS/EOS".into(), "*".into(), "*".into()])];
+            for id in 1..=nids {
+                let len = 1 + rng.below(3);
+                tab.push((id, (0..len).map(|_| rng.pick(&vals).to_string()).collect()));
+            }
+            match bad {
+                1 => { let k = tab.len() - 1; tab[k].0 += 1; }          // a gap before the last id
+                2 => tab[0].1[0] = "a".into(),                           // id 0 is not BOS/EOS
+                3 if tab.len() > 2 => { tab.remove(1); }                 // id 1 missing
+                _ => {}
+            }
+            if bad == 0 && rng.chance(1, 4) {
+                tab.swap(0, 1);                                          // file order is free
+            }
+            tab
+        };
+        let bad = if rng.chance(1, 5) { 1 + rng.below(3) as u8 } else { 0 };
+        let bad_side = rng.chance(1, 2);
+        let rtab = table(&mut rng, if bad_side { bad } else { 0 });
+        let ltab = table(&mut rng, if bad_side { 0 } else { bad });
+        let malformed = bad == 0 && rng.chance(1, 12);
+        let factor = *rng.pick(&[1i64, 10, 700, 800]);
+        // model lines: hits derived from real id pairs, misses, BOS/EOS lines, zero weights, duplicates
+        let mut lines: Vec<(i64, String, String)> = vec![];
+        let nb = t["left"].as_array().unwrap().len();
+        for _ in 0..(2 + rng.below(10)) {
+            let k = rng.below(nb);
+            let r = rng.pick(&rtab).clone();
+            let l = rng.pick(&ltab).clone();
+            let le = expand_tpl(&t["left"][k], &r.1);
+            let re = expand_tpl(&t["right"][k], &l.1);
+            let w8 = match rng.below(6) { 0 => 0, 1 => rng.range(-3, 3), _ => rng.range(-4000, 4000) };
+            match (le, re) {
+                (Some(le), Some(re)) if rng.chance(4, 5) && r.0 != 0 && l.0 != 0 => lines.push((w8, le, re)),
+                _ => lines.push((w8, format!("miss{}", rng.below(3)), "x".into())),
+            }
+        }
+        if rng.chance(1, 2) && !lines.is_empty() {
+            let d = rng.pick(&lines).clone();
+            lines.push((rng.range(-4000, 4000), d.1, d.2));          // the same text again: the last line counts
+        }
+        // render
+        let fdef = feature_def(&t);
+        let tab_text = |tab: &Vec<(usize, Vec<String>)>, broken: bool| -> String {
+            let mut s = String::new();
+            for (i, (id, feats)) in tab.iter().enumerate() {
+                if broken && i == tab.len() - 1 {
+                    s.push_str("not-a-line\n");
+                }
+                s.push_str(&format!("{} {}\n", id, feats.join(",")));
+            }
+            s
+        };
+        let rtext = tab_text(&rtab, malformed);
+        let ltext = tab_text(&ltab, false);
+        let mut mtext = String::from("0.5\tU1:unigram-feature\n");
+        for (w8, lt, rt) in &lines {
+            mtext.push_str(&format!("{}\t{}/{}\n", w8_text(*w8), lt, rt));
+        }
+        mtext.push_str(&format!("{}\tBOS/EOS/{}\n", w8_text(24), lines.first().map_or("x".to_string(), |l| l.2.clone())));
+        let r = catch_unwind(AssertUnwindSafe(|| {
+            let (mut br, mut bl, mut bc) = (vec![], vec![], vec![]);
+            vibrato::mecab::generate_bigram_info(fdef.as_bytes(), rtext.as_bytes(), ltext.as_bytes(), mtext.as_bytes(), factor as f64, &mut br, &mut bl, &mut bc)
+                .map(|_| (br, bl, bc))
+        }));
+        let d = json!({"T": {"left": t["left"], "right": t["right"]},
+                       "rtab": rtab.iter().map(|(id, fs)| json!({"id": id, "feats": fs})).collect::<Vec<_>>(),
+                       "ltab": ltab.iter().map(|(id, fs)| json!({"id": id, "feats": fs})).collect::<Vec<_>>(),
+                       "lines": lines.iter().map(|(w8, lt, rt)| json!({"w8": w8, "lt": lt, "rt": rt})).collect::<Vec<_>>(),
+                       "factor": factor});
+        let ev = match r {
+            Ok(Ok((br, bl, bc))) => {
+                let dict = vibrato::SystemDictionaryBuilder::from_readers_with_bigram_info(
+                    "a,0,0,0,x\n".as_bytes(), br.as_slice(), bl.as_slice(), bc.as_slice(), "DEFAULT 0 1 0\n".as_bytes(), "DEFAULT,0,0,0,*\n".as_bytes(), false);
+                match dict {
+                    Ok(dict) => {
+                        let (nr, nl) = (dict.verif_num_right(), dict.verif_num_left());
+                        let mut costs = vec![];
+                        for l in 0..nl {
+                            for r in 0..nr {
+                                costs.push(dict.verif_conn_cost(r as u16, l as u16));
+                            }
+                        }
+                        json!({"ev": "mecab", "d": d, "malformed": malformed, "ok": true, "compiled": true, "nr": nr, "nl": nl, "costs": costs})
+                    }
+                    Err(e) => json!({"ev": "mecab", "d": d, "malformed": malformed, "ok": true, "compiled": false, "nr": 0, "nl": 0, "costs": [], "msg": e.to_string()}),
+                }
+            }
+            Ok(Err(e)) => json!({"ev": "mecab", "d": d, "malformed": malformed, "ok": false, "compiled": false, "nr": 0, "nl": 0, "costs": [], "msg": e.to_string()}),
+            Err(_) => json!({"ev": "panic", "op": {"op": "mecab"}, "d": d}),
+        };
+        writeln!(f, "{}", ev).unwrap();
+    }
+    0
+}
